@@ -236,7 +236,7 @@ def kernel(seed, tier):
     if tier == "quick":
         return kernel_cases(3, [(1, 2, 3)]) + kernel_cases(2, [(1, 5), (2, 6), (5, 1)]) + \
             [p for i, p in enumerate(kernel_cases(3, [(1, 5, 6)])) if len(p[1]["sets"]) == 3 and i % 4 == 0]
-    return kernel_cases(3, [(1, 2, 3), (1, 5, 6)], "all") + kernel_cases(3, [(2, 1, 2), (3, 2, 1), (2, 6, 5)]) + kernel4()
+    return kernel_cases(3, [(1, 2, 3)], "all") + kernel_cases(3, [(1, 5, 6), (2, 1, 2), (3, 2, 1), (2, 6, 5)]) + kernel4()
 
 
 def kernel4():
